@@ -82,16 +82,29 @@ def signature(obs):
 
 # --------------------------------------------------------------------------------------------------- generated space
 def plan_alphabet(plan):
-    return M.alphabet(plan["n"] + 1, plan["kinds"])
+    return M.alphabet(plan["n"] + 1, plan["kinds"], plan.get("bogus", ()))
+
+
+def _try_tables(plan):
+    n = plan["n"]
+    if plan.get("tries3"):
+        return list(M.try3_configs(n + 1, plan["tries3"]))
+    if plan.get("tries"):
+        return list(M.try_configs(n + 1, *plan["tries"]))
+    return None
 
 
 def plan_size(plan):
     a = len(plan_alphabet(plan))
     per = 1
-    if plan.get("tries"):
-        per = sum(1 for _ in M.try_configs(plan["n"] + 1, *plan["tries"]))
+    tt = _try_tables(plan)
+    if tt is not None:
+        per = len(tt)
     per *= len(plan.get("layouts", ("aligned",))) * (1 + len(plan.get("orphans", ())))
-    return (a ** plan["n"]) * per
+    cnt = a ** plan["n"]
+    if plan.get("require_bogus"):
+        cnt -= len(M.alphabet(plan["n"] + 1, plan["kinds"])) ** plan["n"]
+    return cnt * per
 
 
 def shards_common(ctx, plans, ship_parts=8, per_shard=40000):
@@ -128,15 +141,16 @@ def enum_plan(plan, i0, r, parts):
     al = plan_alphabet(plan)
     layouts = plan.get("layouts", ("aligned",))
     orphans = (None,) + tuple(plan.get("orphans", ()))
-    tcs = None
-    if plan.get("tries"):
-        tcs = list(M.try_configs(n + 1, *plan["tries"]))
+    tcs = _try_tables(plan)
+    need_bogus = plan.get("require_bogus")
     if n == 0:
         sks = [()]
     else:
         sks = itertools.product([al[i0]], *([al] * (n - 1)))
     for k, sk in enumerate(sks):
         if parts > 1 and (al.index(sk[1]) % parts) != r:
+            continue
+        if need_bogus and not any(x[0] in M.BOGUS for x in sk):
             continue
         if plan.get("shared"):
             variants = shared_variants(sk)
